@@ -634,7 +634,11 @@ func cmdLists(args []string) {
 	w.regRegister, w.strCreate, w.entRaise, w.checkPerBlock, w.govEvery = 14, 14, 14, 0, 0
 	for i := 0; i < *n; i++ {
 		r := newRng(seed*7_000_003 + uint64(i))
-		c := newChain(randCfg(r, true))
+		cfg := randCfg(r, true)
+		if i%2 == 1 { // a chain whose genesis numbering does not start at 1 (a chain restarted from an export, a fork)
+			cfg.startPO, cfg.startWrk, cfg.startBcn = uint64(2+r.intn(40)), uint64(2+r.intn(40)), uint64(2+r.intn(40))
+		}
+		c := newChain(cfg)
 		h := newHistory(c, r, w)
 		h.run(*blocks)
 		addSyntheticStreams(c, r)
